@@ -102,6 +102,11 @@ class Calibration:
         if num_islands < 1:
             raise ValueError("'num_islands' must superior or equal to 1.")
 
+        if isinstance(num_best_decisions, int) and num_best_decisions < 0:
+            raise ValueError(
+                "'num_best_decisions' must be 'None' or a positive integer"
+            )
+
         self._log = logging.getLogger(__name__)
 
         self.outputs: "CalibrationOutputs" | None = outputs
